@@ -53,8 +53,11 @@ def op_fault_decode(a):
             gen = lambda b: PduFactory.from_raw(b)
         else:
             # every other schedule keeps the data in a bytearray (the view / pack calls must not touch it)
-            obj = (mk_tc(a["p"], "bytearray" if len(a["p"]["data"]) % 2 else "ctor") if kind == "tc"
-                   else mk_tm(a["p"], "bytearray" if len(a["p"]["data"]) % 2 else "tm"))
+            # (clean schedules without explicit setters also reach the packet through the setter route: other values first,
+            # pack, setters - including content of the same length and CRC-32 and an edited transmit buffer)
+            hist = a["w"] == 0 and not a["mut"] and (a["p"]["apid"] + a["p"]["seq"]) % 3 == 0
+            obj = (mk_tc(a["p"], "setter" if hist else ("bytearray" if len(a["p"]["data"]) % 2 else "ctor")) if kind == "tc"
+                   else mk_tm(a["p"], "setter" if hist else ("bytearray" if len(a["p"]["data"]) % 2 else "tm")))
             if a["mut"]:
                 obj.pack()                  # an earlier pack() must not leave a checksum behind that survives the setters
             for m in a["mut"]:
@@ -69,8 +72,12 @@ def op_fault_decode(a):
                     obj.seq_count = x
                 else:
                     raise ValueError(f)
-            view = bytes(obj.to_space_packet().pack())
-            raw = bytes(obj.pack())
+            if (a["p"]["seq"] + len(a["p"]["data"])) % 2:
+                view = bytes(obj.to_space_packet().pack())
+                raw = bytes(obj.pack())
+            else:                                   # pack() first: the view re-computes the checksum on its own
+                raw = bytes(obj.pack())
+                view = bytes(obj.to_space_packet().pack())
             if kind == "tc":
                 from spacepackets.ecss.tc import PusTc
                 dec = lambda b: PusTc.unpack(b)
